@@ -772,6 +772,8 @@ def execute(desc):
   def check_search_list(step, kind, raw, pushed):
     """C14 S1-S3 on a list returned by a search or a retrieval."""
     n_designs = par_base['n_designs']
+    if isinstance(raw, tuple):
+      raw = list(raw)
     if not isinstance(raw, list):
       return None
     if len(raw) > n_designs:
